@@ -4,6 +4,8 @@
 (*   pk, pj  the incoming edge pk -> pj and the vertex pj;  nk, nj  1000 x unit normals of the incoming and  *)
 (*   outgoing edge;  d  1000 x group delta (signed);  jt join type;  ml  1000 x miter limit;  pts appended    *)
 (* Derived from the geometry alone (declarative):                                                            *)
+(*   J0  the delta in effect for the call's single group: |delta| for open end types; for polygons delta,       *)
+(*       negated iff the path owning the lowest vertex (necessarily an outermost path) has negative area          *)
 (*   J1  nk is the right-hand unit normal of the incoming edge (binding of BuildNormals)                       *)
 (*   J2  the join is CONCAVE iff the turn from the incoming to the outgoing edge is towards the offset side    *)
 (*       (the outgoing edge heads to the side the offset lies on, and it is not an almost complete reversal); a concave join appends      *)
@@ -12,9 +14,17 @@
 (*       round and bevel joins, sqrt 2 for square joins, max(miter limit, sqrt 2) for miter joins;             *)
 (*       round: at least 2 points; bevel: exactly the two normal offsets of pj; a miter within its limit and    *)
 (*       an almost straight join: a single point                                                               *)
+(*   J4  consecutive points of a round join are close enough for the chord to stay within the arc tolerance   *)
+(*       in effect (explicit: min(|d|, tolerance); default |d|/500; never finer than half a unit) of the      *)
+(*       circle of radius |d| about pj                                                                         *)
+(*   J5  an end cap of an open path (cap = 1 start, 2 end; pk is the end point's neighbour, so pj - pk points   *)
+(*       outwards): every point lies between |d| - 1 and |d| * f + 1.5 from the end point (f = sqrt 2 for      *)
+(*       square ends) and not behind the end plane; butt: the two perpendicular offsets of the end point;      *)
+(*       square: two points |d| beyond the end plane, one on each side; round: an arc from one perpendicular   *)
+(*       offset to the other whose chords respect the arc tolerance                                            *)
 (* Engine-level: a failure is a divergence that directs the observable offsetting checks (C06, C07).           *)
 EXTENDS Geom, TLC, Json, IOUtils
-VARIABLES l
+VARIABLES l, cs, st        \* st: joins judged as <<concave, convex square, bevel, round, miter, not judged, caps>>
 Tr == ndJsonDeserialize(IOEnv.TRACE)
 Ev == Tr[l]
 Report(prop, clause, d) == PrintT(<<"FAIL", prop, l, clause, d>>)
@@ -26,8 +36,41 @@ IsOffsetOf(p, pj, n, d) == Abs(p[1] - (pj[1] + RoundDiv(n[1] * d, 1000000))) <= 
 (* distance from pj within [lo, hi] tenths of a unit (squared comparison; TLC integers are 32 bit) *)
 DistIn(p, pj, lo, hi) == LET q == 100 * Dist2(p, pj) IN (lo <= 0 \/ q >= lo * lo) /\ q <= hi * hi
 
+(* paths owning a vertex of maximal y *)
+LowestOwners(Ps) == LET ys == UNION {{Ps[k][i][2] : i \in 1..Len(Ps[k])} : k \in 1..Len(Ps)}
+                        my == CHOOSE y \in ys : \A z \in ys : z <= y
+                    IN {k \in 1..Len(Ps) : \E i \in 1..Len(Ps[k]) : Ps[k][i][2] = my}
+GroupDelta ==   \* expected 1000 * group delta of the current call, or 0 when the geometry does not decide it
+  LET c == cs.case  dl == c.d4 * 250
+  IN IF c.et # 0 THEN Abs(dl)
+     ELSE LET own == LowestOwners(c.paths)
+          IN IF Cardinality(own) # 1 THEN 0
+             ELSE LET a == Area2(c.paths[CHOOSE k \in own : TRUE]) IN IF a = 0 THEN 0 ELSE IF a < 0 THEN -dl ELSE dl
+ChkDelta == (cs.has /\ cs.case.sc = 4 /\ GroupDelta # 0) => Chk(Ev.d = GroupDelta, "ENGINE", "J0_group_delta_sign_or_size", <<Ev.d, GroupDelta>>)
+TCap ==
+  /\ Ev.e = "Join" /\ Ev.cap # 0
+  /\ UNCHANGED cs /\ ChkDelta
+  /\ st' = [st EXCEPT ![7] = @ + 1]
+  /\ (l = Len(Tr) => PrintT(<<"NOTE", "JOINS", l, [st EXCEPT ![7] = @ + 1]>>))
+  /\ LET pk == Ev.pk  pj == Ev.pj  d == Ev.d  D == Abs(d)  et == Ev.et  P == Ev.pts  n == Len(P)
+         u == <<pj[1] - pk[1], pj[2] - pk[2]>>  len2 == u[1] * u[1] + u[2] * u[2]  lenHi == ISqrtHi(len2)  lenLo == ISqrtLo(len2)
+         Along(p) == (p[1] - pj[1]) * u[1] + (p[2] - pj[2]) * u[2]            \* |u| * signed distance beyond the end plane
+         Side(p) == (p[1] - pj[1]) * u[2] - (p[2] - pj[2]) * u[1]             \* |u| * signed lateral distance
+         f == IF et = 3 THEN 1415 ELSE 1000             \* end types: 2 butt, 3 square, 4 round
+         atEff == IF Ev.at > 0 THEN Min2(D, Ev.at) ELSE D \div 500
+         tol == Max2(atEff, 500) + 800
+         lo2 == (2 * (D - tol)) \div 100
+     IN (len2 > 0 /\ D >= 2000) =>
+          /\ Chk(n >= 2 /\ \A i \in 1..n : DistIn(P[i], pj, (D - 1500) \div 100, ((D \div 100) * f) \div 1000 + 15), "ENGINE", "J5_cap_distance", n)
+          /\ Chk(\A i \in 1..n : 1000 * Along(P[i]) >= -1500 * lenHi, "ENGINE", "J5_cap_point_behind_the_end_plane", n)
+          /\ Chk(n < 2 \/ Side(P[1]) * Side(P[n]) < 0, "ENGINE", "J5_cap_does_not_span_both_sides", n)
+          /\ Chk(et # 2 \/ (n = 2 /\ \A i \in 1..n : 1000 * Abs(Along(P[i])) <= 1500 * lenHi), "ENGINE", "J5_butt_cap_points", n)
+          /\ Chk(et # 3 \/ (n = 2 /\ \A i \in 1..n : 1000 * Along(P[i]) >= (D - 1500) * lenLo), "ENGINE", "J5_square_cap_not_extended_by_delta", n)
+          /\ Chk(et # 4 \/ lo2 <= 0 \/ \A i \in 1..(n - 1) : 100 * Dist2(<<P[i][1] + P[i + 1][1], P[i][2] + P[i + 1][2]>>, <<2 * pj[1], 2 * pj[2]>>) >= lo2 * lo2,
+                 "ENGINE", "J5_round_cap_chord_exceeds_arc_tolerance", n)
 TJoin ==
-  /\ Ev.e = "Join"
+  /\ Ev.e = "Join" /\ Ev.cap = 0
+  /\ UNCHANGED cs /\ ChkDelta
   /\ LET pk == Ev.pk  pj == Ev.pj  nk == Ev.nk  nj == Ev.nj  d == Ev.d  D == Abs(d)  jt == Ev.jt  P == Ev.pts
          dx == pj[1] - pk[1]  dy == pj[2] - pk[2]  len2 == dx * dx + dy * dy
          sinS == nj[1] * nk[2] - nj[2] * nk[1]                 \* 10^6 (outgoing direction . incoming normal): > 0 iff the path turns towards its normal side
@@ -36,7 +79,14 @@ TJoin ==
          concave == cos6 > -999000 /\ ((sinS > 0 /\ d > 0) \/ (sinS < 0 /\ d < 0))
          f == CASE jt = 0 -> 1415 [] jt = 1 -> 1000 [] jt = 2 -> 1000 [] jt = 3 -> Max2(Ev.ml, 1415)
          n == Len(P)
-     IN /\ Chk(len2 > 0 /\ Abs(dx * nk[1] + dy * nk[2]) <= 2 * ISqrtHi(len2) /\ dx * nk[2] - dy * nk[1] < 0
+         atEff == IF Ev.at > 0 THEN Min2(D, Ev.at) ELSE D \div 500
+         tol == Max2(atEff, 500) + 800
+         lo2 == (2 * (D - tol)) \div 100                      \* tenths of a unit, doubled coordinates
+         judged == decided /\ D >= 1000
+         cls == IF ~judged THEN 6 ELSE IF concave THEN 1 ELSE jt + 2
+     IN /\ st' = [st EXCEPT ![cls] = @ + 1]
+        /\ (l = Len(Tr) => PrintT(<<"NOTE", "JOINS", l, [st EXCEPT ![cls] = @ + 1]>>))
+        /\ Chk(len2 > 0 /\ Abs(dx * nk[1] + dy * nk[2]) <= 2 * ISqrtHi(len2) /\ dx * nk[2] - dy * nk[1] < 0
                /\ Abs(nk[1] * nk[1] + nk[2] * nk[2] - 1000000) <= 4000, "ENGINE", "J1_normal_of_incoming_edge", 0)
         /\ (decided /\ D >= 1000) =>
              IF concave
@@ -44,8 +94,10 @@ TJoin ==
              ELSE /\ Chk(n >= 1 /\ \A i \in 1..n : DistIn(P[i], pj, (D - 1500) \div 100, ((D \div 100) * f) \div 1000 + 15), "ENGINE", "J3_convex_join_distance", n)
                   /\ Chk(jt # 1 \/ cos6 > 999000 \/ (n = 2 /\ IsOffsetOf(P[1], pj, nk, d) /\ IsOffsetOf(P[2], pj, nj, d)) \/ (n = 2 /\ IsOffsetOf(P[2], pj, nk, d) /\ IsOffsetOf(P[1], pj, nj, d)), "ENGINE", "J3_bevel_points", n)
                   /\ Chk(jt # 2 \/ n >= 2, "ENGINE", "J3_round_needs_two_points", n)
-TJCase == Ev.e = "JCase"            \* the call the following Join events belong to (used to escalate a divergence)
-Init == l = 1
-Next == l <= Len(Tr) /\ l' = l + 1 /\ (TJoin \/ TJCase)
-Spec == Init /\ [][Next]_l
+                  /\ Chk(jt # 2 \/ lo2 <= 0 \/ \A i \in 1..(n - 1) : 100 * Dist2(<<P[i][1] + P[i + 1][1], P[i][2] + P[i + 1][2]>>, <<2 * pj[1], 2 * pj[2]>>) >= lo2 * lo2,
+                         "ENGINE", "J4_round_join_chord_exceeds_arc_tolerance", n)
+TJCase == Ev.e = "JCase" /\ UNCHANGED st /\ cs' = [has |-> TRUE, case |-> Ev.case]            \* the call the following Join events belong to (used to escalate a divergence)
+Init == l = 1 /\ cs = [has |-> FALSE] /\ st = <<0, 0, 0, 0, 0, 0, 0>>
+Next == l <= Len(Tr) /\ l' = l + 1 /\ (TJoin \/ TCap \/ TJCase)
+Spec == Init /\ [][Next]_<<l, cs, st>>
 =============================================================================
